@@ -1634,6 +1634,8 @@ def rule_commit_order(ctx: Ctx, rid="C11.COMMIT-ORDER", parse_only=False):
     self_name = rec.args.args[0].arg
     mm = set(module_level_mutables(m))
     cn = set(m.classes())
+    flow.RISKY_ATTRS.clear()
+    flow.RISKY_ATTRS.update(flow.risky_properties(ctx.src.own_modules()))
     paths = flow.enumerate_paths(rec, resolver=resolver_for(m, c))
     ctx.rep.unit(f"{EV}:ExperimentEvaluator.recompile ({len(paths)} paths, helpers inlined)")
     nW = 0
